@@ -340,6 +340,8 @@ class TokenizerState:
     def prog_token(self, end: int, tok: Token) -> TokenInfo:
         endprog = self.end_progs[-1]
         endprog.join(self, end)
+        if self.lnum != endprog.start[0] and not endprog.contline.endswith(self.line):
+            endprog.contline += self.line  # the line the token ends on
         self.pos = end
         epos = (self.lnum, end)
         return TokenInfo(tok, endprog.text, endprog.start, epos, endprog.contline)
@@ -399,7 +401,8 @@ class EndProg:
 
     def join_line(self, state: TokenizerState) -> None:
         self.text += state.line[state.pos :]
-        self.contline += state.line
+        if state.lnum != self.start[0] or not self.contline:  # the starting line is already there
+            self.contline += state.line
 
     def reset(self, start: tuple[int, int]) -> None:
         self.start = start
